@@ -1,4 +1,5 @@
 use std::collections::HashMap;
+#[cfg(not(feature = "verif"))]
 use std::fs::{File, OpenOptions};
 use std::io::{BufReader, Read, Seek, SeekFrom, Write};
 
@@ -6,6 +7,8 @@ use rusty_parser::{FileAccess, FileHandle, FileMode};
 
 use crate::RuntimeError;
 use crate::interpreter::read_input::ReadInputSource;
+#[cfg(feature = "verif")]
+use crate::interpreter::verif_fs::{File, OpenOptions};
 use crate::interpreter::write_printer::WritePrinter;
 
 pub trait Input {
